@@ -63,6 +63,92 @@ def check(run, prog, tier):
     run.rule("C09-K", "containers kept per bath function are separate objects: no list built by repeating one mutable element "
                       "(`[[]]*n` is n names for one list)", minimum=10)
     rule_K(run, prog)
+    run.rule("C09-L", "the accessors read the component dictionaries the way the builders write them (keys, list by position), "
+                      "and copying the components of a function into itself terminates", minimum=4)
+    rule_L(run, prog)
+
+
+def rule_L(run, prog):
+    """'... carry consistent parameters': the component dictionaries (self.params, a list of dictionaries) are written by
+    the constructors and read back by the accessors.  (i) An accessor reads a component with a key the builders of the
+    class use (a key that no builder reads - 'ctime' for 'cortime' - raises KeyError for every function the class can
+    build).  (ii) self.params is a list: it is indexed by position, a string index (`self.params["ftype"]`) is a
+    TypeError on every object.  (iii) In-place addition copies the components of the other function into this one; the
+    other function may be this one (a.add_to_data(a), the public form of a += a): a loop over `other.params` that appends
+    to `self.params` never ends unless it runs over a copy or the case is taken out before."""
+    rid = "C09-L"
+    n = 0
+    for q in (CF + "CorrelationFunction", SD + "SpectralDensity"):
+        cls = prog.cls(q)
+        builder_keys = set()
+        for nme, f in cls.methods.items():
+            if nme == "__init__" or nme.startswith("_make_"):
+                for x in walk_no_nested(f.node):
+                    if isinstance(x, ast.Subscript) and isinstance(x.slice, ast.Constant) and isinstance(x.slice.value, str):
+                        builder_keys.add(x.slice.value)
+                    if isinstance(x, ast.Compare) and isinstance(x.left, ast.Constant) and isinstance(x.left.value, str) \
+                            and any(isinstance(o, (ast.In, ast.NotIn)) for o in x.ops):
+                        builder_keys.add(x.left.value)
+        ep = prog.find_class_attr(cls, "energy_params")
+        if not builder_keys:
+            raise AnalysisError("%s: no keys found in the builders" % cls.name)
+        for nme, f in cls.methods.items():
+            if nme == "__init__" or nme.startswith("_make_"):
+                continue
+            prog.consulted.add(f.relpath)
+            for x in walk_no_nested(f.node):
+                if not (isinstance(x, ast.Subscript) and isinstance(x.slice, ast.Constant) and isinstance(x.slice.value, str)):
+                    continue
+                root = x.value
+                while isinstance(root, ast.Subscript):
+                    root = root.value
+                comp_vars = {g.target.id for g in ast.walk(f.node) if isinstance(g, (ast.For, ast.comprehension))
+                             and isinstance(g.target, ast.Name) and norm(g.iter) == "self.params"}
+                if norm(root) != "self.params" and not (isinstance(root, ast.Name) and root.id in comp_vars and root is x.value):
+                    continue
+                n += 1
+                if norm(x.value) == "self.params":
+                    run.obligation(rid, f.short, False, key="list-indexed-by-position:" + x.slice.value,
+                                   message="%s indexes the list of components with the string %r (`%s`): a TypeError for every object; "
+                                           "a component is self.params[i]" % (f.short, x.slice.value, norm(x)), loc=f.loc(x))
+                else:
+                    run.obligation(rid, f.short, x.slice.value in builder_keys, key="key-known-to-builders:" + x.slice.value,
+                                   message="%s reads the component entry %r, a key none of the builders of %s uses (they use %s): "
+                                           "KeyError for every function the class can build" % (f.short, x.slice.value, cls.name,
+                                                                                               sorted(builder_keys)[:10]),
+                                   loc=f.loc(x), sample={"key": x.slice.value})
+        # (iii) self-aliasing
+        for nme, f in cls.methods.items():
+            params = [a.arg for a in f.node.args.args[1:]]
+            for lp in walk_no_nested(f.node):
+                if not isinstance(lp, ast.For):
+                    continue
+                it_, copied = lp.iter, False
+                if isinstance(it_, ast.Call) and (call_name(it_) in ("list", "tuple") and it_.args):
+                    it_, copied = it_.args[0], True
+                elif isinstance(it_, ast.Call) and isinstance(it_.func, ast.Attribute) and it_.func.attr == "copy":
+                    it_, copied = it_.func.value, True
+                elif isinstance(it_, ast.Subscript) and isinstance(it_.slice, ast.Slice) and it_.slice.lower is None and it_.slice.upper is None:
+                    it_, copied = it_.value, True
+                if not (isinstance(it_, ast.Attribute) and isinstance(it_.value, ast.Name) and it_.value.id in params):
+                    continue
+                lp_iter = it_
+                attr = lp_iter.attr
+                grows = [c for c in ast.walk(lp) if isinstance(c, ast.Call) and isinstance(c.func, ast.Attribute)
+                         and c.func.attr in ("append", "extend", "insert") and norm(c.func.value) == "self." + attr]
+                if not grows:
+                    continue
+                n += 1
+                prog.consulted.add(f.relpath)
+                guard = copied or any(isinstance(c, ast.Compare) and {norm(c.left), norm(c.comparators[0])} == {"self", lp_iter.value.id}
+                                      for c in walk_no_nested(f.node) if isinstance(c, ast.Compare) and c.lineno < lp.lineno)
+                run.obligation(rid, f.short, guard, key="self-addition-terminates:" + attr,
+                               message="%s runs over %s.%s and appends to self.%s inside the loop: called with the function itself "
+                                       "(a.%s(a)) the list grows as fast as it is read and the call never returns; iterate over a "
+                                       "copy, or take the case `%s is self` out before" % (f.short, lp_iter.value.id, attr, attr, nme,
+                                                                                         lp_iter.value.id), loc=f.loc(lp))
+    if n < 4:
+        raise AnalysisError("C09-L: only %d reads of component entries / copying loops found" % n)
 
 
 def rule_K(run, prog):
@@ -514,7 +600,8 @@ def rule_B(run, prog):
                 run.obligation(rid, "%s.%s" % (cname, mname), nd in st, key="stmt:" + nd,
                                message="addition must perform '%s'" % nd, loc=f.loc(),
                                sample={"method": "%s.%s" % (cname, mname), "statement": nd})
-            loops = [n for n in walk_no_nested(f.node) if isinstance(n, ast.For) and norm(n.iter) == "%s.params" % o]
+            loops = [n for n in walk_no_nested(f.node) if isinstance(n, ast.For) and norm(n.iter) in (
+                "%s.params" % o, "list(%s.params)" % o, "%s.params[:]" % o, "%s.params.copy()" % o, "tuple(%s.params)" % o)]
             ok = len(loops) == 1 and [norm(s) for s in loops[0].body] == ["self.params.append(%s)" % loops[0].target.id]
             run.obligation(rid, "%s.%s" % (cname, mname), ok, key="all-params",
                            message="all components of the right operand must be appended to params", loc=f.loc())
